@@ -61,9 +61,22 @@ type Runner struct {
 	ExtraSock bool
 }
 
+// RemBase: fault-plan keys from RemBase on address remove calls (key-RemBase = index among the remove calls);
+// the only mode for them is "na" (the data plane refuses the removal, the rule stays installed).
+const RemBase = 1 << 20
+
 // Run executes one history with the given fault plan.
 func (rn *Runner) Run(h *History, faults map[int]string) *Trace {
 	tr := &Trace{H: h, Faults: faults, NoRemRep: rn.NoRemoveReport}
+	var remFaults map[int]string
+	for k, m := range faults {
+		if k >= RemBase {
+			if remFaults == nil {
+				remFaults = map[int]string{}
+			}
+			remFaults[k-RemBase] = m
+		}
+	}
 	var inner forwarder.Driver
 	var table func() map[RuleKey]int
 	var cleanup func()
@@ -75,7 +88,7 @@ func (rn *Runner) Run(h *History, faults map[int]string) *Trace {
 		mdp.NoRemRep = rn.NoRemoveReport
 		inner, table = mdp, mdp.Table
 	}
-	tap := &Tap{Inner: inner, Faults: faults}
+	tap := &Tap{Inner: inner, Faults: faults, RemFaults: remFaults}
 	TakeFatals()
 	t0 := time.Now()
 	env, err := StartEnv(tap, EnvOpts{MaxRetrans: rn.MaxRetrans})
@@ -350,6 +363,19 @@ func expectRsp(op *Op) bool {
 		return op.NodeID >= 0
 	}
 	return false
+}
+
+// RemoveCalls lists the remove calls of a trace.
+func (t *Trace) RemoveCalls() []DPCall {
+	var out []DPCall
+	for _, st := range t.Steps {
+		for _, c := range st.Calls {
+			if c.RIdx >= 0 {
+				out = append(out, c)
+			}
+		}
+	}
+	return out
 }
 
 // FaultableCalls lists the (create/update/query) calls of a fault-free trace.
